@@ -34,17 +34,28 @@
   accepted input, whichever path the automaton took (loop invariants `UInv`, `UAtInv`, `UBrInv` in
   Sipsp/Proofs/UriSpec.lean).
 
-  NOT proved here (oracle / differential testing only):
-    * further character-level facts about the components (no ']' / '[' inside a bracketed host, ports are digits,
-      the value of `PortNo`), completeness (exactly which strings are accepted), and the exact error code / position
-      of rejected inputs beyond "position ≤ len";
-    * for tel: URIs containing '@' the user-info part is dropped from the report, so no tiling is claimed there.
+  COMPLETENESS and the exact iff (`Sipsp.Proofs.UriComplete`, byte classes taken from the automaton's ordinary-byte
+  branches): `complete` — every text of the grammar `UcURI` (scheme in any letter case; optional user[:password]@ with
+  the ';' / '?' / "host:port;params" back-tracking forms; host = token run or `[…]`; optional :port with value ≤ 65535;
+  optional ;params; optional ?headers) is accepted with exactly the stated components; `sound_grammar`, `accepted_iff`,
+  `ok_iff`: a text is accepted as sip: / sips: IF AND ONLY IF it is a `UcURI`, `decomposition_unique`; tel:
+  (`tel_complete`, `tel_simple`, `tel_sound`, `tel_iff`: exact iff as well; Host empty, User = the number);
+  error code AND position for the rejection shapes a user meets: `err_too_short`, `err_scheme`, `err_empty_host`,
+  `err_bracket_open`, `err_bracket_junk` (at the offending byte or the end of input), `err_port_char` (at the
+  non-digit; hosts behind '@' and bracketed hosts), `err_port_big` (at the byte behind the digits).
+  NOT proved: code and position of the remaining BadChar rejections (a second '@', '[' / ']' in a user, a password
+  without '@') and of ';' inside the headers.
+  Observed (all pinned as tests in UriComplete): `sip:h:12x` reports the port error at the END of the input (without
+  '@' the non-digit starts a password); `sip:a&b` is accepted with host `a&b` but `sip:u@a&b` is rejected;
+  `sip:u@a]b[` is accepted; `sip:u:1;x@h` is rejected while `sip:[a]:1;x@h` is accepted; for tel: URIs containing
+  '@' the user-info part is dropped from the report, so no tiling is claimed there.
   Quirks of the code visible in the statements: the scheme test ORs 0x20 into the first four bytes, so 0x1a is
   accepted in place of ':' after `sip` / `tel` (`USchEnd`); the first byte after the scheme is only checked for
   ':' ']' '[' and otherwise taken as ordinary text, even '@' ';' '?' (`sip:@h` has host `@h`).
   Model tied to sipuri.go by the correspondence check.
 -/
 import Sipsp.Proofs.UriSpec
+import Sipsp.Proofs.UriComplete
 
 namespace Sipsp.C14
 open Sipsp
@@ -244,5 +255,70 @@ example : (parseURI "sip:[::1]:5".toUTF8.data {}).2.2.1.host = ⟨4, 5⟩ := by 
 -- a rejected URI
 example : (parseURI "sip:a@b@c".toUTF8.data {}).1 = UErr.badChar ∧ (parseURI "sip:a@b@c".toUTF8.data {}).2.1 = 7 := by
   decide +kernel
+
+/-! ### completeness: which texts are accepted (exact iff), and error positions (proved in `Sipsp.Proofs.UriComplete`) -/
+
+/-- **EXPORT C14 — completeness for sip: / sips:**: a text of the grammar is accepted with exactly the components
+    user, password, host, port, port number, parameters, headers and type of its decomposition -/
+theorem complete : type_of% @Sipsp.parseURI_complete := @Sipsp.parseURI_complete
+
+/-- **EXPORT C14 — completeness, all URI types**: a text of the grammar (≤ 65,535 bytes) is accepted, consumed to
+    the end, never panics, and the report is exactly the decomposition `u` (for tel: with the host handed out as
+    the user, `ucOut`) -/
+theorem complete_all_schemes : type_of% @Sipsp.parseURI_complete_gen := @Sipsp.parseURI_complete_gen
+
+/-- **EXPORT C14 — soundness of the grammar**: every accepted sip: / sips: text (≤ 65,535 bytes) is a text of the
+    grammar, and the reported components are its decomposition -/
+theorem sound_grammar : type_of% @Sipsp.parseURI_sound := @Sipsp.parseURI_sound
+
+/-- **EXPORT C14 — `parseURI_ok_iff`**: a text of at most 65,535 bytes is accepted as a sip: / sips: URI with the
+    report `u` exactly when `u` is a decomposition of the text according to the grammar `UcURI` -/
+theorem accepted_iff : type_of% @Sipsp.parseURI_iff := @Sipsp.parseURI_iff
+
+/-- **EXPORT C14 — which texts are accepted**: exactly the texts of the grammar -/
+theorem ok_iff : type_of% @Sipsp.parseURI_ok_iff := @Sipsp.parseURI_ok_iff
+
+/-- **EXPORT C14 — the decomposition is unique** -/
+theorem decomposition_unique : type_of% @Sipsp.UcURI_unique := @Sipsp.UcURI_unique
+
+/-- **EXPORT C14 — completeness for tel:**: accepted; the host field is empty and the number is reported as user -/
+theorem tel_complete : type_of% @Sipsp.parseURI_complete_tel := @Sipsp.parseURI_complete_tel
+
+/-- **EXPORT C14 — tel:** `tel:` number `[;params]` with no `@ : ? [ ]` in the number and no `?`, `@` in the
+    parameters: accepted, the host field is empty, the user field is the number, the parameters follow -/
+theorem tel_simple : type_of% @Sipsp.parseURI_tel_simple := @Sipsp.parseURI_tel_simple
+
+/-- **EXPORT C14 — soundness of the grammar for tel:**: an accepted tel: text is a text of the grammar; the report
+    is its decomposition with the host (the number) handed out as the user -/
+theorem tel_sound : type_of% @Sipsp.parseURI_sound_tel := @Sipsp.parseURI_sound_tel
+
+/-- **EXPORT C14 — which texts are accepted as tel:**: exactly the texts of the grammar behind `tel:` -/
+theorem tel_iff : type_of% @Sipsp.parseURI_tel_iff := @Sipsp.parseURI_tel_iff
+
+/-- **EXPORT C14 — shorter than the shortest scheme plus one byte**: `ErrURITooShort` at the end of the input -/
+theorem err_too_short : type_of% @Sipsp.parseURI_err_short := @Sipsp.parseURI_err_short
+
+/-- **EXPORT C14 — unknown scheme** (at least five bytes, not `sip:` / `sips:` / `tel:` in any letter case):
+    `ErrURIScheme`, position 4 -/
+theorem err_scheme : type_of% @Sipsp.parseURI_err_scheme := @Sipsp.parseURI_err_scheme
+
+/-- **EXPORT C14 — empty host** behind `scheme user-info @`: the input ends there, or one of `: ; ? & @` follows:
+    `ErrURIHost`, position = that byte (= the length of the input when it ends there) -/
+theorem err_empty_host : type_of% @Sipsp.parseURI_err_empty_host := @Sipsp.parseURI_err_empty_host
+
+/-- **EXPORT C14 — `]` missing**: a host that opens with `[` (right behind the scheme or behind the '@') and is
+    not closed before the end of the input or before one of `[ @ ; ? &`: `ErrURIHost` at that position -/
+theorem err_bracket_open : type_of% @Sipsp.parseURI_err_bracket_open := @Sipsp.parseURI_err_bracket_open
+
+/-- **EXPORT C14 — text behind `]`** other than `:` `;` `?`: `ErrURIHost` at that byte -/
+theorem err_bracket_junk : type_of% @Sipsp.parseURI_err_bracket_junk := @Sipsp.parseURI_err_bracket_junk
+
+/-- **EXPORT C14 — non-digit in the port** (host behind '@', or bracketed host; then ':' and digits up to `p`):
+    a byte at `p` that is neither a digit nor `;` / `?` gives `ErrURIPort` at `p` -/
+theorem err_port_char : type_of% @Sipsp.parseURI_err_port_char := @Sipsp.parseURI_err_port_char
+
+/-- **EXPORT C14 — port above 65535** (any host of the grammar; then ':' and digits up to `p` whose value exceeds
+    65535, closed by `;` / `?` or the end of the input): `ErrURIPort` at `p` (the byte behind the digits) -/
+theorem err_port_big : type_of% @Sipsp.parseURI_err_port_big := @Sipsp.parseURI_err_port_big
 
 end Sipsp.C14
